@@ -120,7 +120,7 @@ def literal(v: Any) -> str:
 
 def run(w) -> None:
     rng = w.rng
-    n_items = 600 if w.tier == "thorough" else 150
+    n_items = 1500 if w.tier == "thorough" else 320
     per_shard = n_items // w.nshards
     items = []
     for i in range(per_shard):
